@@ -48,10 +48,20 @@ Orders == {"fwd", "rev"}
 AllPos == ref.fwd.pos \cup ref.rev.pos
 NPanics(es) == Cardinality({i \in 1..Len(es) : es[i].c = "panic"})
 
+\* A value whose marshaler panics while the response is being serialized
+\* (user code: the custom scalar Boom with value "panic") cannot be part of a
+\* response: C04 demands that only that response fails, with a well-formed
+\* error body, one more recover-hook call, and a live process.
+RECURSIVE HasMarshalPanic(_)
+HasMarshalPanic(d) ==
+  IF d.t = "o" THEN \E i \in 1..Len(d.f) : HasMarshalPanic(d.f[i].v)
+  ELSE IF d.t = "l" THEN \E i \in 1..Len(d.e) : HasMarshalPanic(d.e[i])
+  ELSE d.t = "s" /\ d.v = "panic"
+
 GInit ==
   /\ sc = [op |-> [kind |-> "query", sels |-> <<>>, frags |-> <<>>], plan |-> <<>>, dirplan |-> <<>>]
-  /\ ref = [fwd |-> [d |-> Null, isnull |-> FALSE, errs |-> <<>>, pos |-> {}],
-            rev |-> [d |-> Null, isnull |-> FALSE, errs |-> <<>>, pos |-> {}], roots |-> <<>>]
+  /\ ref = [fwd |-> [d |-> Null, isnull |-> FALSE, errs |-> <<>>, pos |-> {}, dinfo |-> {}],
+            rev |-> [d |-> Null, isnull |-> FALSE, errs |-> <<>>, pos |-> {}, dinfo |-> {}], roots |-> <<>>]
   /\ started = {} /\ ended = {} /\ errs = <<>> /\ recovers = 0 /\ phase = "idle"
 
 Load(s) ==
@@ -85,21 +95,36 @@ End(p) ==
 \* at the step where it happens).
 AddErr(p, c) ==
   /\ phase = "running"
-  /\ \E o \in Orders : BagSub(Append(errs, [p |-> p, c |-> c]), ref[o].errs)
+  /\ \E o \in Orders : BagSub(Append(errs, [p |-> p, c |-> c]),
+                               ref[o].errs \o (IF HasMarshalPanic(ref[o].d) THEN <<[p |-> "", c |-> "panic"]>> ELSE <<>>))
   /\ errs' = Append(errs, [p |-> p, c |-> c])
   /\ UNCHANGED <<sc, ref, started, ended, recovers, phase>>
 
 Recover ==
   /\ phase = "running"
-  /\ \E o \in Orders : recovers + 1 <= NPanics(ref[o].errs)
+  /\ \E o \in Orders : recovers + 1 <= NPanics(ref[o].errs) + (IF HasMarshalPanic(ref[o].d) THEN 1 ELSE 0)
   /\ recovers' = recovers + 1
   /\ UNCHANGED <<sc, ref, started, ended, errs, phase>>
+
+RespondSerializationFailure(data, rerrs) ==
+  /\ phase = "running"
+  /\ started = ended
+  /\ data.t \in {"n", "absent"}
+  /\ Len(rerrs) = 1 /\ rerrs[1].c = "panic"
+  /\ \E o \in Orders :
+       /\ started = ref[o].pos
+       /\ HasMarshalPanic(ref[o].d)
+       /\ recovers = NPanics(ref[o].errs) + 1
+       /\ BagEq(errs, ref[o].errs \o rerrs)
+  /\ phase' = "done"
+  /\ UNCHANGED <<sc, ref, started, ended, errs, recovers>>
 
 Respond(data, rerrs) ==
   /\ phase = "running"
   /\ started = ended
   /\ \E o \in Orders :
        /\ started = ref[o].pos
+       /\ ~HasMarshalPanic(ref[o].d)
        /\ data = ref[o].d
        /\ BagEq(rerrs, ref[o].errs)
        /\ recovers = NPanics(ref[o].errs)
